@@ -13,6 +13,17 @@ def signature_tasks():
     return [T("Signature.extract", sig_c.t_extract, "U")]
 
 
+def descriptor_tasks():
+    """the Ovld object as a class attribute / called directly (core_c.t_descriptor)"""
+    return [T(f"Ovld.descriptor[{wh}]", m.t_descriptor(wh)) for wh in ("get", "call")]
+
+
+def keyword_decorator_tasks():
+    from contracts import utils_c
+
+    return [T("keyword_decorator", utils_c.t_keyword_decorator)]
+
+
 def defns_tasks():
     return [T(f"Ovld.defns[{g}]", m.t_defns(g)) for g in m.GRAPHS]
 
